@@ -521,6 +521,8 @@ def run_one(ck, prog):
         waits = [bb for bb, t in c7.cfg.calls(lambda t: (t.get("callee") or "").endswith(("Process::wait", "wait::wait_pid")))]
         closes = [bb for bb, t in c7.cfg.calls(lambda t: (t.get("callee") or "").endswith(("core::mem::drop", "ptr::drop_in_place")))
                   if c7.args(bb) and mentions(c7.args(bb)[0], c7.prov, lambda z: z[0] == "field" and z[2] == "stdin")]
+        # `self.stdin = None` drops the old value in place (a drop terminator on the field) - the same close
+        closes += [b for b in c7.cfg.live_blocks() if c7.cfg.term(b)["k"] == "drop" and any(pe.get("k") == "field" and pe.get("n") == "stdin" for pe in (c7.cfg.term(b).get("p", {}).get("p") or []))]
         ck.ob("C13.7", "Child::wait|stdin-closed-before-waiting", len(waits) == 1 and bool(closes) and any(c7.cfg.dominates(cb_, waits[0]) and cb_ != waits[0] for cb_ in closes), fn=cw["path"],
               detail=f"the piped stdin must be dropped (taken out of self.stdin) before the wait call; drops of stdin found at blocks {closes}, wait at {waits}")
     # ---- C13.7 wait / try_wait ----------------------------------------------------------------------------------------------
